@@ -2584,6 +2584,7 @@ def recovery_experiment(ctx, rng, nr, stats, use_default=False):
     if not dev <= 0.15:
         ctx.fail_input(ep, small, {'fitted_corr': C.tolist(), 'max_dev': dev}, 'max|corr_fitted - corr_true| <= 0.15',
                        ep + ':recovery-correlation')
+    misfit = set()
     for j, (kd, dist) in enumerate(fams):
         grid = dist.ppf(np.linspace(0.01, 0.99, 99))
         dj = float(np.max(np.abs(np.asarray(model.univariates[j].cdf(grid), dtype=float) - dist.cdf(grid))))
@@ -2592,6 +2593,8 @@ def recovery_experiment(ctx, rng, nr, stats, use_default=False):
             ctx.fail_input(ep, dict(small, column=j), {'sup_cdf_dev': dj, 'generating': kd},
                            'sup|F_fitted - F_true| <= 0.12 on a grid',
                            ep + ':marginal-not-recovered-' + type(model.univariates[j]).__name__)
+            misfit.add(j)            # reported under the family class; its sample / dependence are not judged again
+            continue
         if not np.all(np.isfinite(out.iloc[:, j].to_numpy())):
             continue
         ks = ks_distance(out.iloc[:, j].to_numpy(), dist.cdf)
@@ -2601,6 +2604,8 @@ def recovery_experiment(ctx, rng, nr, stats, use_default=False):
                            'synthetic column within 0.12 + DKW of the generating marginal', ep + ':recovery-sample-marginal')
     for a in range(k):
         for b in range(a + 1, k):
+            if a in misfit or b in misfit:
+                continue
             if not (np.all(np.isfinite(out.iloc[:, a].to_numpy())) and np.all(np.isfinite(out.iloc[:, b].to_numpy()))):
                 continue
             tau = float(st.kendalltau(out.iloc[:, a].to_numpy(), out.iloc[:, b].to_numpy()).statistic)
